@@ -898,10 +898,17 @@ retry:
 
 // unregisters a connected player
 func (p *Proxy) unregisterConnection(player *connectedPlayer) (found bool) {
+	lowerName := strings.ToLower(player.Username())
 	p.muP.Lock()
-	_, found = p.playerIDs[player.ID()]
-	delete(p.playerNames, strings.ToLower(player.Username()))
-	delete(p.playerIDs, player.ID())
+	// Only remove entries that belong to this very player: the teardown of a
+	// rejected duplicate login must not unregister the original player.
+	if cur, ok := p.playerNames[lowerName]; ok && cur == player {
+		delete(p.playerNames, lowerName)
+	}
+	if cur, ok := p.playerIDs[player.ID()]; ok && cur == player {
+		delete(p.playerIDs, player.ID())
+		found = true
+	}
 	empty := len(p.playerIDs) == 0
 	p.muP.Unlock()
 	if empty {
